@@ -61,22 +61,29 @@ func (s *Server) HandleBefore(
 // is not one of these, clientID is an empty string and err is nil.
 func (s *Server) clientIDFromDNSContext(pctx *proxy.DNSContext) (clientID string, err error) {
 	proto := pctx.Proto
+
+	// pathID is the ClientID from the path of a DNS-over-HTTPS request.  It
+	// takes precedence over the one from the server name.
+	var pathID string
 	if proto == proxy.ProtoHTTPS {
-		clientID, err = clientIDFromDNSContextHTTPS(pctx)
+		pathID, err = clientIDFromDNSContextHTTPS(pctx)
 		if err != nil {
 			return "", fmt.Errorf("checking url: %w", err)
-		} else if clientID != "" {
-			return clientID, nil
+		} else if pathID != "" && !s.conf.TLSConf.StrictSNICheck {
+			return pathID, nil
 		}
 
-		// Go on and check the domain name as well.
+		// Go on and check the domain name as well.  With the strict SNI check
+		// the server name must be validated even if the path contains a
+		// ClientID, since otherwise any client could evade the check by adding
+		// a ClientID to the path.
 	} else if proto != proxy.ProtoTLS && proto != proxy.ProtoQUIC {
 		return "", nil
 	}
 
 	hostSrvName := s.conf.TLSConf.ServerName
 	if hostSrvName == "" {
-		return "", nil
+		return pathID, nil
 	}
 
 	cliSrvName, err := clientServerName(pctx, proto)
@@ -91,6 +98,10 @@ func (s *Server) clientIDFromDNSContext(pctx *proxy.DNSContext) (clientID string
 	)
 	if err != nil {
 		return "", fmt.Errorf("clientid check: %w", err)
+	}
+
+	if pathID != "" {
+		return pathID, nil
 	}
 
 	return clientID, nil
